@@ -151,7 +151,34 @@ PROPS["C08"] = dict(
                   evaluations=("count", "calls"), distinct_nontrivial=("distinct", "rejected_in_state")),
         rule="states = corpus states (distinct canonical observation + session op multiset); a transition = one catalogue call attempted in one state; "
              "distinct_nontrivial = distinct (catalogue entry, state) pairs in which the call was actually rejected with an exception.",
-        bound=dict(quick="corpus: empty seed level-1 alphabet depth 3; seeds R1, R2 and all their level-2 successors; full catalogue in every state", thorough="empty seed depth 4; R1, R2 and all their level-2 successors"),
+        bound=dict(quick="corpus: empty seed level-1 alphabet depth 3; seeds R1, R2, R3; full catalogue (+ ReadOnly pass over the entity alphabet) in every state", thorough="empty seed depth 4; R1, R2 and all their level-2 successors"),
         assumptions=_E1_ASSUME,
+    ),
+)
+
+PROPS["C09"] = dict(
+    level="model_checking",
+    budget_s=dict(quick=150, thorough=1200),
+    parts=[dict(name="modes", bin="C09", flavour="plain")],
+    manifest=dict(
+        engine="E1", design_ref="5 / C09",
+        technique="state corpus by explicit-state BFS on the real library; every alphabet call attempted in a ReadOnly session, classified as mutating by a differential ReadWrite run; byte comparison; exhaustive header-defect x mode x compression enumeration",
+        text="For every corpus file (BFS over the full entity alphabet from the empty file, plus rich seeds and, in thorough, their successors): opened ReadOnly it "
+             "shows exactly what was written; each of the ~190 alphabet operations (plus forceId/forceCreatedAt/forceUpdatedAt) is attempted; an operation that "
+             "changes the observation (incl. updated_at) when run on a ReadWrite copy of the same state must throw on the ReadOnly file; afterwards the file's "
+             "bytes are identical. ReadWrite reopen preserves the observation, a missing path is created empty; Overwrite yields the observation of an empty file, "
+             "reopenable in both modes. 13 header defects (missing/wrong format, version, id; plain HDF5; non-HDF5; empty; truncated) x {ReadOnly, ReadWrite} x both "
+             "compression defaults x 2 base files must be refused, and ReadOnly must not change their bytes or create a missing path.",
+        note="'Mutating in state S' is defined differentially by the library's own ReadWrite behaviour, so no catalogue classification is hand-written. "
+             "flush() and close() are not mutators. Quick runs the second compression default on a quarter of the states."),
+    evidence=dict(
+        keys=dict(states=("distinct", "states"), transitions=("sum", [("count", "readonly_calls"), ("count", "differential_runs"), ("count", "open_attempts")]),
+                  traces_validated_against_impl=("count", "differential_runs"),
+                  evaluations=("sum", [("count", "readonly_calls"), ("count", "open_attempts"), ("count", "byte_comparisons"), ("count", "observations_compared")]),
+                  distinct_nontrivial=("distinct", "outcomes")),
+        rule="states = corpus states; per state: all alphabet calls on a ReadOnly copy + one differential ReadWrite run per enabled call + RW/Overwrite reopen checks; "
+             "header defects: 13 defects x 2 modes x 2 compression defaults x 2 base files; distinct_nontrivial = distinct (call or defect, mode, outcome) tuples.",
+        bound=dict(quick="corpus: empty seed level-1 alphabet depth 3 + seeds R1, R3", thorough="empty seed full alphabet depth 3; R1, R3 and all their successors"),
+        assumptions=_E1_ASSUME + ["byte identity is checked by comparing the whole file content before and after the ReadOnly session"],
     ),
 )
